@@ -6,6 +6,8 @@ ROOT = os.path.dirname(os.path.dirname(os.path.abspath(__file__)))
 import importlib, sys
 sys.path.insert(0, os.path.dirname(os.path.abspath(__file__)))
 ENGINE_MODULES = ["cluster", "cluster_ext", "kv", "store", "snapxfer", "watch", "funcs"]
+# only engines (and, per engine, properties) that have been integrated and verified are registered
+READY = json.load(open(os.path.join(ROOT, "tools", "ready.json")))
 CHECKS = {}
 ENGINES = []
 for name in ENGINE_MODULES:
@@ -15,7 +17,9 @@ for name in ENGINE_MODULES:
         if e.name == name:
             continue
         raise
-    info = getattr(mod, "MANIFEST_INFO", {})
+    if name not in READY:
+        continue
+    info = {p: c for p, c in getattr(mod, "MANIFEST_INFO", {}).items() if READY[name] == "all" or p in READY[name]}
     for pid, c in info.items():
         CHECKS[pid] = dict(engine=mod.ENGINE["name"], technique=c["technique"], category=c.get("category", "model_checking"),
                            text=c["text"], note=c["note"], ref=c.get("ref", "DESIGN.md section 3"))
